@@ -57,7 +57,7 @@ func genSnapshot(seed int64, g int, scale int) *store.PersistedData {
 			},
 			Tasks: []store.PersistedTask{
 				{Name: "build", Script: []string{"make " + nastyStrings[r.Intn(len(nastyStrings))]}, Status: "done", Start: &start, End: &end},
-				{Name: "test", Script: []string{"go test"}, DependsOn: []string{"build"}, Status: "error", Errored: true, Error: &errText, ExitCode: int16(r.Intn(255))},
+				{Name: "test", Script: []string{"go test"}, DependsOn: []string{"build"}, Status: "error", Error: &errText, ExitCode: int16(r.Intn(255))},
 			},
 		}
 		d.Jobs = append(d.Jobs, j)
